@@ -139,8 +139,24 @@ NIST_SAMPLE = ["Water, Liquid", "Air, Dry (near sea level)", "Kapton Polyimide F
                "Propane, Liquid", "Propane", "Polyethylene Terephthalate (Mylar)", "Polyethylene", "Freon-12B2", "Freon-12", "Water, Liq"]
 
 
+LONG_LENGTHS = [63, 64, 65, 100, 127, 128, 129, 200, 211, 212, 213, 254, 255, 256, 257, 300, 511, 512, 513, 1000, 1023, 1024, 1025, 4095, 4096, 4097, 10000, 65536]
+
+
+def long_strings():
+    """strings around every plausible fixed buffer size: an unknown name of every listed length; a catalogue name with a tail, a symbol with a tail and
+    two valid long formulas at a few lengths.  Messages that echo the caller's string, scratch buffers for names and symbols and formatted-length
+    limits show at one particular length only."""
+    # (one capital only: the parser grows its element array once per capital letter BEFORE it looks the symbols up, which is quadratic under a sanitizer)
+    out = ["A" + "x" * (n - 1) for n in LONG_LENGTHS] + ["A" * n for n in (200, 212, 256)]
+    for n in (200, 256, 1024):
+        out += [("Water, Liquid" + "x" * n)[:n], ("Si" + "z" * n)[:n]]
+    for n in (200, 256):          # valid formulas: every symbol costs a reallocation of the element array (quadratic under a sanitizer), so these stay short
+        out += ["H" * n, ("(H2O)" * (n // 5 + 1))[:5 * (n // 5)]]
+    return list(dict.fromkeys(out))
+
+
 def strings(level=1):
-    s = FORMULAS_OK + FORMULAS_BAD + NIST_SAMPLE + [None]
+    s = FORMULAS_OK + FORMULAS_BAD + NIST_SAMPLE + [None] + long_strings()
     if level > 0:
         s += [bytes([b]) for b in range(1, 256)]
     return s
